@@ -498,12 +498,47 @@ theorem World.runOn_frame (w : World) (j k : Nat) (ops : List Op) (ij : Inst) (h
     exact ⟨a, b, c.trans hf.2⟩
 
 
+/-! ### interleaved histories on several instances -/
+
+/-- the ops of an interleaved history that address instance `j`, in order -/
+def projOps (j : Nat) (h : List (Nat × Op)) : List Op := h.filterMap fun p => if p.1 = j then some p.2 else none
+
+/-- what instance `j` lets a client observe during an interleaved history (ops on any instances, in any order) -/
+def World.obsFor (w : World) (j : Nat) : List (Nat × Op) → List Obs
+  | [] => []
+  | (k, op) :: rest =>
+    if k = j then (w.step k op).2 :: (w.step k op).1.obsFor j rest else (w.step k op).1.obsFor j rest
+
+/-- **frame rule**, interleaved histories: what instance `j` lets a client observe is the history of its OWN ops on its
+    own channel objects — the ops on other instances in between change nothing -/
+theorem World.obsFor_local (w : World) (hs : w.Sep) (j : Nat) (h : List (Nat × Op)) (ij : Inst) (hj : w.insts[j]? = some ij) :
+    w.obsFor j h = (Dummy.run (gather w.heap ij.addrs) ij (projOps j h)).2.2 := by
+  induction h generalizing w ij with
+  | nil => rfl
+  | cons p rest ih =>
+    obtain ⟨k, op⟩ := p
+    have hs' := w.step_sep k op hs
+    by_cases hk : k = j
+    · subst hk
+      have hok := hs.ok k ij hj
+      obtain ⟨h1, h2, h3, h4⟩ := w.step_local k op ij hj hok
+      have hkeep := step_keeps (gather w.heap ij.addrs) ij op
+      have := ih (w.step k op).1 hs' _ h2
+      rw [hkeep.2, h3] at this
+      simp only [World.obsFor, if_true, projOps, List.filterMap_cons, this, h1]
+      rfl
+    · have hf := w.step_frame j k op ij (fun e => hk e.symm) hj (fun ik hik => hs.disj k j ik ij hk hik hj)
+      have := ih (w.step k op).1 hs' ij hf.1
+      rw [hf.2] at this
+      simp only [World.obsFor, if_neg hk, projOps, List.filterMap_cons, this]
+
 /-! ### restart: generator state -/
 
-/-- the attached function is in the state `reset()` leaves it in (for functions without state: always) -/
+/-- the channel object is in the state `DeviceChannel.reset()` leaves it in: the attached function reset (for
+    functions without state: nothing to say) and the call counter handed to `func.get()` back at 0 -/
 def Chan.GenFresh (c : Chan) : Prop := c.reset = c
 
-theorem reset_idem (c : Chan) : c.reset.reset = c.reset := by
+theorem genReset_idem (c : Chan) : genReset (genReset c) = genReset c := by
   cases c with
   | mk en type vdim div mlen name gen cntr sign calls =>
     cases gen with
@@ -511,17 +546,47 @@ theorem reset_idem (c : Chan) : c.reset.reset = c.reset := by
     | some k =>
       rcases k with _|_|_|_|_|_|_|_|_|_|_|k <;> rfl
 
-theorem reset_fresh (c : Chan) : c.reset.GenFresh := reset_idem c
-
-/-- what `GenFresh` says per function: counters back at 0, ChannelFunc2's direction back at +1 -/
-theorem GenFresh_iff (c : Chan) :
-    c.GenFresh ↔ ((c.gen = some 1 ∨ c.gen = some 6 ∨ c.gen = some 7 ∨ c.gen = some 9 ∨ c.gen = some 10 → c.cntr = 0) ∧
-      (c.gen = some 2 → c.cntr = 0 ∧ c.sign = 1)) := by
-  unfold Chan.GenFresh Chan.reset genReset
+theorem genReset_calls (c : Chan) (n : Nat) : genReset { c with calls := n } = { genReset c with calls := n } := by
   cases c with
   | mk en type vdim div mlen name gen cntr sign calls =>
     cases gen with
-    | none => simp
+    | none => rfl
+    | some k =>
+      rcases k with _|_|_|_|_|_|_|_|_|_|_|k <;> rfl
+
+theorem reset_idem (c : Chan) : c.reset.reset = c.reset := by
+  unfold Chan.reset
+  split
+  · rw [genReset_calls, genReset_idem]
+  · exact genReset_idem c
+
+theorem reset_fresh (c : Chan) : c.reset.GenFresh := reset_idem c
+
+theorem genReset_calls_eq (c : Chan) : (genReset c).calls = c.calls := by
+  cases c with
+  | mk en type vdim div mlen name gen cntr sign calls =>
+    cases gen with
+    | none => rfl
+    | some k =>
+      rcases k with _|_|_|_|_|_|_|_|_|_|_|k <;> rfl
+
+/-- `reset()` zeroes the call counter (with the repaired `DeviceChannel.reset`) -/
+theorem reset_calls (hz : Gen.Dummy.resetZeroesCalls = true) (c : Chan) : c.reset.calls = 0 := by
+  unfold Chan.reset
+  rw [if_pos hz]
+
+/-- what `GenFresh` says per function: counters back at 0, ChannelFunc2's direction back at +1 — and, for every
+    channel object, the call counter back at 0 -/
+theorem GenFresh_iff (hz : Gen.Dummy.resetZeroesCalls = true) (c : Chan) :
+    c.GenFresh ↔ ((c.gen = some 1 ∨ c.gen = some 6 ∨ c.gen = some 7 ∨ c.gen = some 9 ∨ c.gen = some 10 → c.cntr = 0) ∧
+      (c.gen = some 2 → c.cntr = 0 ∧ c.sign = 1) ∧ c.calls = 0) := by
+  unfold Chan.GenFresh Chan.reset
+  rw [if_pos hz]
+  unfold genReset
+  cases c with
+  | mk en type vdim div mlen name gen cntr sign calls =>
+    cases gen with
+    | none => simp; omega
     | some k =>
       rcases k with _|_|_|_|_|_|_|_|_|_|_|k <;> simp <;> omega
 
@@ -537,25 +602,25 @@ def Chan.outputs (c : Chan) : Nat → List (Option (List PyVal × List Int))
   | 0 => []
   | n + 1 => c.dataGet.2 :: (c.dataGet.1).outputs n
 
-/-- same function, same dimension, same function state -/
+/-- same function, same dimension, same function state, same call counter -/
 def SameGen (c d : Chan) : Prop :=
-  c.gen = d.gen ∧ c.vdim = d.vdim ∧
+  c.gen = d.gen ∧ c.vdim = d.vdim ∧ c.calls = d.calls ∧
   (c.gen = some 1 ∨ c.gen = some 6 ∨ c.gen = some 7 ∨ c.gen = some 9 ∨ c.gen = some 10 → c.cntr = d.cntr) ∧
   (c.gen = some 2 → c.cntr = d.cntr ∧ c.sign = d.sign)
 
 theorem SameGen.step {c d : Chan} (h : SameGen c d) :
     c.dataGet.2 = d.dataGet.2 ∧ SameGen c.dataGet.1 d.dataGet.1 := by
-  obtain ⟨hg, hv, h1, h2⟩ := h
+  obtain ⟨hg, hv, hcl, h1, h2⟩ := h
   cases c with
   | mk en type vdim div mlen name gen cntr sign calls =>
     cases d with
     | mk en' type' vdim' div' mlen' name' gen' cntr' sign' calls' =>
-      simp only at hg hv h1 h2
-      subst hg hv
+      simp only at hg hv hcl h1 h2
+      subst hg hv hcl
       cases gen with
       | none => simp [Chan.dataGet, SameGen]
       | some k =>
-        rcases k with _|_|_|_|_|_|_|_|_|_|_|k <;>
+        rcases k with _|_|_|_|_|_|_|_|_|_|_|_|_|k <;>
           simp_all [Chan.dataGet, SameGen, genGet] <;> (try split) <;> simp
 
 theorem SameGen.outputs {c d : Chan} (h : SameGen c d) (n : Nat) : c.outputs n = d.outputs n := by
@@ -565,11 +630,55 @@ theorem SameGen.outputs {c d : Chan} (h : SameGen c d) (n : Nat) : c.outputs n =
     simp only [Chan.outputs]
     rw [h.step.1, ih h.step.2]
 
-/-- a channel whose function is in its reset state produces the sequence of a newly created function -/
-theorem GenFresh.outputs {c : Chan} (h : c.GenFresh) (n : Nat) :
+/-- a channel object in its reset state produces the sequence of a newly created one (function state initial, call
+    counter 0) -/
+theorem GenFresh.outputs (hz : Gen.Dummy.resetZeroesCalls = true) {c : Chan} (h : c.GenFresh) (n : Nat) :
     c.outputs n = ({ c with cntr := 0, sign := 1, calls := 0 } : Chan).outputs n := by
   apply SameGen.outputs
-  have := (GenFresh_iff c).mp h
-  refine ⟨rfl, rfl, fun hk => this.1 hk, fun hk => this.2 hk⟩
+  have := (GenFresh_iff hz c).mp h
+  refine ⟨rfl, rfl, this.2.2, fun hk => this.1 hk, fun hk => this.2.1 hk⟩
+
+/-! ### the user-defined functions that read the call index: closed forms -/
+
+/-- kind 11 (`get(cntr) -> (cntr,) * vdim`): the outputs of `n` successive calls are the call indices
+    `calls, calls + 1, …` — each once, none skipped -/
+theorem outputs_callidx (c : Chan) (h : c.gen = some 11) (n : Nat) :
+    c.outputs n = (List.range n).map fun j => some (List.replicate c.vdim (PyVal.int ((c.calls + j : Nat) : Int)), []) := by
+  induction n generalizing c with
+  | zero => rfl
+  | succ n ih =>
+    have hd : c.dataGet = ({ c with calls := c.calls + 1 }, some (List.replicate c.vdim (PyVal.int (c.calls : Int)), [])) := by
+      unfold Chan.dataGet
+      rw [h]
+      rfl
+    simp only [Chan.outputs, hd, List.range_succ_eq_map, List.map_cons, List.map_map, Nat.add_zero]
+    rw [ih { c with calls := c.calls + 1 } h]
+    congr 1
+    apply List.map_congr_left
+    intro j _
+    simp only [Function.comp]
+    congr 4
+    omega
+
+/-- kind 12 (sparse): call number `k` yields a sample iff `k % 3 = 0`, the value is `k`; the counter advances on
+    every call, also when the function returned `None` -/
+theorem outputs_sparse (c : Chan) (h : c.gen = some 12) (n : Nat) :
+    c.outputs n = (List.range n).map fun j =>
+      if (c.calls + j) % 3 = 0 then some (List.replicate c.vdim (PyVal.int ((c.calls + j : Nat) : Int)), []) else none := by
+  induction n generalizing c with
+  | zero => rfl
+  | succ n ih =>
+    have hd : c.dataGet = ({ c with calls := c.calls + 1 },
+        if c.calls % 3 = 0 then some (List.replicate c.vdim (PyVal.int (c.calls : Int)), []) else none) := by
+      unfold Chan.dataGet
+      rw [h]
+      rfl
+    simp only [Chan.outputs, hd, List.range_succ_eq_map, List.map_cons, List.map_map, Nat.add_zero]
+    rw [ih { c with calls := c.calls + 1 } h]
+    congr 1
+    apply List.map_congr_left
+    intro j _
+    simp only [Function.comp]
+    rw [show c.calls + 1 + j = c.calls + (j + 1) by omega]
 
 end Nxs.Dummy
